@@ -9,20 +9,23 @@ from . import core
 FILES = ["a.td", "b.td", "c.td"]
 
 
-def text(k, incs, faulty, extra=""):
-    """text variant k: include lines, one class T<k>, optionally an undefined-class fault Und<k>"""
+def text(k, incs, faulty, extra="", syn=False):
+    """text variant k: include lines, one class T<k>, optionally an undefined-class fault Und<k>, optionally a syntax error
+    (a declaration that the end of the text cuts short)"""
     s = "".join('include "%s"\n' % FILES[j] for j in incs)
     s += extra
     s += "class T%d;\n" % k
     if faulty:
         s += "def m%d : Und%d;\n" % (k, k)
+    if syn:
+        s += "class Syn%d\n" % k
     return s
 
 
 class Variant:
-    def __init__(self, k, incs, faulty, extra=""):
-        self.k, self.incs, self.faulty, self.extra = k, tuple(incs), faulty, extra
-        self.text = text(k, incs, faulty, extra)
+    def __init__(self, k, incs, faulty, extra="", syn=False):
+        self.k, self.incs, self.faulty, self.extra, self.syn = k, tuple(incs), faulty, extra, syn
+        self.text = text(k, incs, faulty, extra, syn)
 
 
 def make_variants():
@@ -38,9 +41,9 @@ def make_variants():
 def sessions(rng, quick):
     """list of (disk {file idx: Variant}, ops [(file idx, Variant)])"""
     out = []
-    leaf = [Variant(100, (), True), Variant(101, (), False), Variant(102, (), True)]
-    roots = [Variant(110, (1,), False), Variant(111, (1, 2), True), Variant(112, (), True), Variant(113, (2,), False)]
-    mids = [Variant(120, (2,), True), Variant(121, (), False)]
+    leaf = [Variant(100, (), True), Variant(101, (), False), Variant(102, (), True, syn=True)]
+    roots = [Variant(110, (1,), False), Variant(111, (1, 2), True), Variant(112, (), True), Variant(113, (2,), False, syn=True)]
+    mids = [Variant(120, (2,), True), Variant(121, (), False, syn=True)]
     disk0 = {0: Variant(200, (1,), True), 1: Variant(201, (2,), False), 2: Variant(202, (), True)}
     atoms = [(0, v) for v in roots] + [(1, v) for v in mids + leaf[:1]] + [(2, v) for v in leaf[1:]]
     maxlen = 3 if quick else 4
